@@ -4,7 +4,7 @@ from rules.summary_common import *
 
 EXPLANATION = (
     "D1 SummaryVariable::from_str and Display tables are mutually inverse and equal the 23 pkg_summary names; "
-    "D2 variant declaration order = spec order, Ord derived, every formatter write in Display for Summary lies under a BTreeMap-keyed loop and never under a HashMap-driven loop; "
+    "D2 variant declaration order = spec order, Ord derived, every formatter write in Display for Summary lies under a loop ordered by SummaryVariable (a BTreeMap keyed by it, or a Vec of the (key, value) pairs collected from entries as they are and sorted by key in SummaryVariable's own order, untouched otherwise) and never under a HashMap-driven loop; "
     "D3 each write uses the template {key}={value}\\n bound to (key, value); "
     "D4 kind consistency: only insert_or_update/insert_or_push mutate `entries`, every writer/reader call site pairs a variable with its spec kind, each public getter/setter/pusher addresses the variable its name denotes")
 NOT_DECIDED = [
@@ -22,6 +22,88 @@ def loop_driver(body, paths, header):
     if t["k"] == "call" and t["func"]["path"].endswith("::next"):
         return t["func"]["full"]
     return None
+
+
+SORTS = ("sort_by", "sort_unstable_by", "sort_by_key", "sort_unstable_by_key", "sort_by_cached_key", "sort", "sort_unstable")
+
+
+def sorted_vec_source(ctx, body, paths, VAR, VAL):
+    """The other way to print in SummaryVariable order: the entries collected into a Vec<(&SummaryVariable, &SummaryValue)> that is sorted by
+    its key before the print loop walks it.  dict(driver=<test on a loop driver>, filled, sorted, sort_bbs, why) or None when no loop walks such
+    a vector."""
+    tup = "(&%s, &%s)" % (VAR, VAL)
+
+    def is_driver(d):
+        return ("vec::IntoIter<" + tup) in d or ("slice::Iter<'_, " + tup) in d
+    hs = [h for h in body.loops if is_driver(loop_driver(body, paths, h) or "")]
+    if not hs:
+        return None
+    # the vector local: the one the loop's iterator is made from
+    vec = set()
+    for p in paths:
+        for e in p.events:
+            if e.kind == "call" and (ev_is(e, "IntoIterator>::into_iter") or ev_is(e, "[T]>::iter")) and tup in (e.data.get("full") or e.name) + " ".join(str(g) for g in (e.data.get("gargs") or ())) + e.dest["ty"]:
+                for s_ in subterms(e.args[0]):
+                    if s_[0] in ("loc", "havoc", "mutated") and isinstance(s_[1], int) and 0 <= s_[1] < len(body.f["locals"]) and body.f["locals"][s_[1]]["ty"].replace(" ", "").startswith("std::vec::Vec<" + tup.replace(" ", "")):
+                        vec.add(s_[1])
+    res = {"driver": is_driver, "filled": False, "sorted": False, "sort_bbs": set(), "why": "no vector of (key, value) pairs identified"}
+    if len(vec) != 1:
+        return res
+    n = next(iter(vec))
+
+    def on_vec(t):
+        # the vector itself, borrowed or seen as a slice: not something merely computed from it
+        for _ in range(6):
+            if isinstance(t, tuple) and t and t[0] in ("ref", "refmut", "deref"):
+                t = t[1]
+            elif is_call(t, "DerefMut>::deref_mut", "Deref>::deref", "::as_mut_slice", "::as_slice") and call_args(t):
+                t = call_args(t)[0]
+            else:
+                break
+        return isinstance(t, tuple) and t and t[0] in ("loc", "havoc", "mutated") and t[1] == n
+    filled = sorts = 0
+    other = set()
+    for p in paths:
+        for e in p.events:
+            if e.kind != "call" or not any(on_vec(a) for a in e.args):
+                continue
+            last = mir.norm_path(e.name).rsplit("::", 1)[-1]
+            # what the vector held when it was first used: collect(entries.iter()), nothing in between
+            for s_ in subterms(e.args[0]):
+                if s_[0] == "loc" and s_[1] == n and len(s_) > 2 and is_call(s_[2], "::collect"):
+                    src = strip_refs(call_args(s_[2])[0])
+                    if (is_call(src, "HashMap::iter", "HashMap<K, V, S>::iter") or (is_call(src, "IntoIterator>::into_iter") and "HashMap" in src[1])) and \
+                            carried_unchanged(call_args(src)[0], lambda u: isinstance(u, tuple) and u[0] == "field" and u[3] == "entries"):
+                        filled += 1
+                    else:
+                        res["why"] = "the vector is collected from %s, not from self.entries.iter() as it is" % term_str(src)[:80]
+            if last in SORTS:
+                okc = last in ("sort", "sort_unstable")
+                clo = strip_refs(e.args[1]) if len(e.args) > 1 else None
+                if clo is not None and isinstance(clo, tuple) and clo[:2] == ("agg", "closure"):
+                    rp = ret_paths(ctx.paths(clo[2]) or [])
+                    if last in ("sort_by", "sort_unstable_by"):
+                        # |a, b| a.0.cmp(b.0): SummaryVariable's own order, first argument first
+                        def key_of(t, prm):
+                            t = deval(t)
+                            return isinstance(t, tuple) and t[0] == "field" and t[2] == 0 and deval(t[1]) == ("param", prm)
+                        okc = len(rp) == 1 and is_call(rp[0].end[1], "%s as std::cmp::Ord>::cmp" % VAR, "Ord>::cmp") and VAR in rp[0].end[1][1] and \
+                            key_of(call_args(rp[0].end[1])[0], 2) and key_of(call_args(rp[0].end[1])[1], 3)
+                    else:
+                        okc = len(rp) == 1 and carried_unchanged(rp[0].end[1], lambda u: isinstance(u, tuple) and u[0] == "field" and u[2] == 0 and deval(u[1]) == ("param", 2))
+                if okc:
+                    sorts += 1
+                    res["sort_bbs"].add(e.bb)
+                else:
+                    res["why"] = "the vector is sorted by something other than the SummaryVariable key in its own order"
+                    other.add(last)
+            elif last not in ("deref_mut", "deref", "into_iter", "iter", "len", "is_empty", "as_slice", "as_mut_slice"):
+                other.add(last)
+    if other:
+        res["why"] = "the vector is also touched by %s between collecting and printing" % sorted(other)
+    res["filled"] = filled > 0 and not other
+    res["sorted"] = sorts > 0 and not other
+    return res
 
 
 def run(ctx):
@@ -57,6 +139,11 @@ def run(ctx):
     paths = ctx.paths(DISPLAY_SUM)
     if body and paths:
         writes = [(bb, t) for bb, t in body.calls() if t["func"]["path"].endswith("write_fmt") or t["func"]["path"].endswith("write_str")]
+        sv = sorted_vec_source(ctx, body, paths, VAR, VAL)
+        is_ordered = lambda d: ("btree_map::" in d and VAR in d) or (sv is not None and sv["driver"](d) and sv["sorted"])
+        is_outer = lambda d: "btree_map" in d or (sv is not None and sv["driver"](d))
+        NEXTS = ("btree_map::IntoIter as std::iter::Iterator>::next", "btree_map::Iter as std::iter::Iterator>::next") + \
+            (("vec::IntoIter as std::iter::Iterator>::next", "slice::Iter as std::iter::Iterator>::next") if sv is not None else ())
         ctx.floor("D2-ORDERED-ITER", DISPLAY_SUM, "formatter writes", len(writes), 1)
         for bb, t in writes:
             hs = [h for h, blks in body.loops.items() if bb in blks]
@@ -64,11 +151,11 @@ def run(ctx):
             bad = [d for h, d in drivers if "hash_map::" in d or "hash_set::" in d or "HashMap" in d]
             outer = max(hs, key=lambda h: len(body.loops[h])) if hs else None
             od = dict(drivers).get(outer, "")
-            ordered = "btree_map::" in od and VAR in od
+            ordered = is_ordered(od)
             ctx.check(not bad and ordered, "D2-ORDERED-ITER", DISPLAY_SUM, "write@%s" % ("A-arm" if len(hs) > 1 else "bb") + str(sorted(hs)),
-                      "write is under a BTreeMap<&SummaryVariable,_> loop only",
-                      "formatter write at %s is driven by %s; it must lie in a loop ordered by SummaryVariable (BTreeMap) and never in a HashMap-driven loop, or output depends on insertion history"
-                      % (body.span_of(bb), [d for _, d in drivers] or "no loop"), body.span_of(bb))
+                      "write is under a loop ordered by SummaryVariable only (BTreeMap, or a vector of the entries sorted by key)",
+                      "formatter write at %s is driven by %s; it must lie in a loop ordered by SummaryVariable (a BTreeMap, or the entries sorted by their key) and never in a HashMap-driven loop, or output depends on insertion history%s"
+                      % (body.span_of(bb), [d for _, d in drivers] or "no loop", (" (%s)" % sv["why"]) if sv is not None and not sv["sorted"] else ""), body.span_of(bb))
         # the BTreeMap is filled from every entry of self.entries
         ins = [e for p in paths for e in p.calls("BTreeMap::insert")]
         okins = bool(ins) and all(mentions(e.args[1], lambda s: is_call(s, "hash_map::Iter as std::iter::Iterator>::next")) for e in ins)
@@ -80,8 +167,10 @@ def run(ctx):
                         cols = find_calls(e.args[0], "::collect")
                         if cols and any(mentions(c, lambda s: s[0] == "field" and s[3] == "entries") for c in cols):
                             okins = True
-        ctx.check(okins, "D2-COPY-ALL", DISPLAY_SUM, "btree-fill", "every entry is copied into the ordered map",
-                  "the ordered map is not filled from the iteration over self.entries")
+        if not okins and sv is not None:
+            okins = sv["filled"]
+        ctx.check(okins, "D2-COPY-ALL", DISPLAY_SUM, "btree-fill", "every entry is copied into the ordered map / the sorted vector",
+                  "the ordered map is not filled from the iteration over self.entries" + ((" (%s)" % sv["why"]) if sv is not None else ""))
 
         # ---- D3 templates and bindings
         sites = fmt_sites_in(fx, body)
@@ -103,7 +192,7 @@ def run(ctx):
                 # order of appearance inside the array aggregate
                 arr = [s for s in subterms(e.args[1]) if isinstance(s, tuple) and s[0] == "agg" and s[1] == "array"]
                 ops = arr[0][4] if arr else ()
-                nexts = [s for s in subterms(e.args[1]) if is_call(s, "btree_map::IntoIter as std::iter::Iterator>::next", "btree_map::Iter as std::iter::Iterator>::next")]
+                nexts = [s for s in subterms(e.args[1]) if is_call(s, *NEXTS) and (sv is None or "btree_map" in s[1] or "SummaryVariable" in " ".join(str(g) for g in s[2]) or sv["driver"](s[1]))]
                 ok = len(ops) == 2 and all(is_call(o, "::new_display") for o in ops) and bool(nexts)
                 if ok:
                     item = nexts[0]
@@ -126,8 +215,8 @@ def run(ctx):
         #                 on the value (empty, repeated, ...) decides whether a line is written
         def writes(p_, blks):
             return [e_ for e_ in p_.events if e_.kind == "call" and e_.path.endswith("write_fmt") and e_.bb in blks]
-        outer = [h for h in body.loops if "btree_map" in (loop_driver(body, paths, h) or "")]
-        inner = [h for h in body.loops if "slice::Iter" in (loop_driver(body, paths, h) or "")]
+        outer = [h for h in body.loops if is_outer(loop_driver(body, paths, h) or "")]
+        inner = [h for h in body.loops if "slice::Iter" in (loop_driver(body, paths, h) or "") and h not in outer]
         bad_iter = []
         for h in outer + inner:
             blks = body.loops[h]
@@ -147,10 +236,11 @@ def run(ctx):
                   "Display for Summary has an iteration that writes %s lines or is guarded by a condition on the value (%s): some stored values would not be printed, so printing and parsing back loses them"
                   % (bad_iter[0][1] if bad_iter else "?", bad_iter[:2]), fn_span(body))
         # A arm iterates the vector front to back
-        a_loops = [h for h in body.loops if "slice::Iter" in (loop_driver(body, paths, h) or "")]
+        a_loops = [h for h in body.loops if "slice::Iter" in (loop_driver(body, paths, h) or "") and h not in outer]
         ctx.check(len(a_loops) >= 1, "D3-A-ORDER", DISPLAY_SUM, "list-iteration", "multi-line values are printed by a forward slice iteration",
                   "no forward slice iteration found for multi-line values")
-        revs = [t for _, t in body.calls() if t["func"]["path"].endswith("::rev") or "sort" in t["func"]["path"].split("::")[-1]]
+        # (the key sort of the entries vector is what puts the entries in order; it does not touch a value's own elements)
+        revs = [t for bb_, t in body.calls() if (t["func"]["path"].endswith("::rev") or "sort" in t["func"]["path"].split("::")[-1]) and not (sv is not None and sv["sorted"] and bb_ in sv["sort_bbs"])]
         ctx.check(not revs, "D3-A-ORDER", DISPLAY_SUM, "no-reorder", "no rev()/sort on values", "values are reordered (%s) before printing" % [t["func"]["path"] for t in revs])
 
     # ---- D4 kind consistency
